@@ -47,10 +47,12 @@ type c09Types struct {
 }
 
 type c09Shape struct {
-	embed   bool     // J embeds I
-	iNames  []string // methods declared by I
-	jNames  []string // methods declared by J itself
-	withArg bool     // methods take one pointer parameter as well
+	pkgPath  string   // import path of the package declaring I, J and S
+	embedErr bool     // J also embeds the builtin interface `error` (its method Error belongs to no package)
+	embed    bool     // J embeds I
+	iNames   []string // methods declared by I
+	jNames   []string // methods declared by J itself
+	withArg  bool     // methods take one pointer parameter as well
 }
 
 func c09Source(sh c09Shape) string {
@@ -68,10 +70,16 @@ func c09Source(sh c09Shape) string {
 	if sh.embed {
 		b.WriteString("\tI\n")
 	}
+	if sh.embedErr {
+		b.WriteString("\terror\n")
+	}
 	for _, m := range sh.jNames {
 		b.WriteString("\t" + m + sig + "\n")
 	}
 	b.WriteString("}\n\ntype S struct{}\n\n")
+	if sh.embedErr {
+		b.WriteString("func (S) Error() string { return \"\" }\n")
+	}
 	seen := map[string]bool{}
 	for _, m := range append(append([]string{}, sh.iNames...), sh.jNames...) {
 		if !seen[m] {
@@ -90,7 +98,7 @@ func c09World(sh c09Shape) *c09Types {
 		panic(err)
 	}
 	conf := types.Config{Importer: importer.Default()}
-	pkg, err := conf.Check("m/p", fset, []*ast.File{f}, nil)
+	pkg, err := conf.Check(sh.pkgPath, fset, []*ast.File{f}, nil)
 	if err != nil {
 		panic(err)
 	}
@@ -102,6 +110,9 @@ func c09World(sh c09Shape) *c09Types {
 	w.nI = w.I.Underlying().(*types.Interface).NumMethods()
 	w.nJ = w.J.Underlying().(*types.Interface).NumMethods()
 	w.resI, w.resJ = per*w.nI, per*w.nJ
+	if sh.embedErr {
+		w.resJ = per * (w.nJ - 1) // error.Error belongs to no package: out of scope, no triggers
+	}
 	return w
 }
 
@@ -126,18 +137,18 @@ var (
 	c09Methods  map[string]*types.Func // methods of S by name
 )
 
-func c09NumMethods(t *types.Interface) int         { return len(c09Ifaces[t].methods) }
+func c09NumMethods(t *types.Interface) int            { return len(c09Ifaces[t].methods) }
 func c09Method(t *types.Interface, i int) *types.Func { return c09Ifaces[t].methods[i] }
-func c09FullName(f *types.Func) string             { return c09FullNm[f] }
-func c09NamedString(n *types.Named) string         { return c09NamedStr[n] }
-func c09NamedUnderlying(n *types.Named) types.Type { return c09Under[n] }
+func c09FullName(f *types.Func) string                { return c09FullNm[f] }
+func c09NamedString(n *types.Named) string            { return c09NamedStr[n] }
+func c09NamedUnderlying(n *types.Named) types.Type    { return c09Under[n] }
 func c09Lookup(T types.Type, addressable bool, pkg *types.Package, name string) (types.Object, []int, bool) {
 	if m, ok := c09Methods[name]; ok {
 		return m, nil, false
 	}
 	return nil, nil, false
 }
-func c09InScope(c *config.Config, pkg *types.Package) bool { return true }
+func c09InScope(c *config.Config, pkg *types.Package) bool { return pkg != nil } // default scope: every package; the universe (nil) is never in scope
 func c09ConfSym() *config.Config                           { return &config.Config{} }
 
 func c09WorldSym(sh c09Shape) *c09Types {
@@ -158,7 +169,7 @@ func c09WorldSym(sh c09Shape) *c09Types {
 		var fs []*types.Func
 		for _, n := range names {
 			f := types.NewFunc(token.NoPos, pkg, n, mkSig())
-			c09FullNm[f] = "(m/p." + owner + ")." + n // FullName names the declaring type
+			c09FullNm[f] = "(" + sh.pkgPath + "." + owner + ")." + n // FullName names the declaring type
 			fs = append(fs, f)
 		}
 		return fs
@@ -187,19 +198,26 @@ func c09WorldSym(sh c09Shape) *c09Types {
 		it := new(types.Interface)
 		c09Ifaces[it] = &c09IfaceInfo{methods: methods}
 		named := types.NewNamed(types.NewTypeName(token.NoPos, pkg, name, nil), nil, nil)
-		c09NamedStr[named] = "m/p." + name
+		c09NamedStr[named] = sh.pkgPath + "." + name
 		c09Under[named] = it
 		return named
+	}
+	var errOwn []*types.Func
+	if sh.embedErr {
+		ef := types.NewFunc(token.NoPos, nil, "Error", types.NewSignatureType(nil, nil, nil, nil, types.NewTuple(types.NewVar(token.NoPos, nil, "", nil)), false))
+		c09FullNm[ef] = "(error).Error"
+		errOwn = []*types.Func{ef}
+		c09Methods["Error"] = types.NewFunc(token.NoPos, pkg, "Error", mkSig())
 	}
 	w := &c09Types{}
 	w.I = iface("I", set(iOwn))
 	if sh.embed {
-		w.J = iface("J", set(iOwn, jOwn)) // embedded methods keep their declaring interface
+		w.J = iface("J", set(iOwn, jOwn, errOwn)) // embedded methods keep their declaring interface
 	} else {
-		w.J = iface("J", set(jOwn))
+		w.J = iface("J", set(jOwn, errOwn))
 	}
 	s := types.NewNamed(types.NewTypeName(token.NoPos, pkg, "S", nil), nil, nil)
-	c09NamedStr[s] = "m/p.S"
+	c09NamedStr[s] = sh.pkgPath + ".S"
 	c09Under[s] = types.NewStruct(nil, nil)
 	w.S = s
 	for _, n := range append(append([]string{}, sh.iNames...), sh.jNames...) {
@@ -214,11 +232,14 @@ func c09WorldSym(sh c09Shape) *c09Types {
 	w.nI = len(c09Ifaces[c09Under[w.I.(*types.Named)].(*types.Interface)].methods)
 	w.nJ = len(c09Ifaces[c09Under[w.J.(*types.Named)].(*types.Interface)].methods)
 	w.resI, w.resJ = per*w.nI, per*w.nJ
+	if sh.embedErr {
+		w.resJ = per * (w.nJ - 1)
+	}
 	return w
 }
 
 func Harness_C09() {
-	sh := c09Shape{embed: ndChoice("j_embeds_i", 2) == 1, withArg: ndChoice("methods_take_arg", 2) == 1}
+	sh := c09Shape{pkgPath: "m/p", embed: ndChoice("j_embeds_i", 2) == 1, withArg: ndChoice("methods_take_arg", 2) == 1, embedErr: ndChoice("j_embeds_error", 2) == 1}
 	sh.iNames = [][]string{{"M"}, {"M", "N"}}[ndChoice("i_methods", 2)]
 	// J's own methods sort before ("A"), between/after ("Z") I's, or J declares nothing of its own / the same names
 	switch ndChoice("j_methods", 5) {
@@ -233,7 +254,7 @@ func Harness_C09() {
 	case 4:
 		sh.jNames = []string{"M"} // same method name declared again (no embedding) - a different interface with an equal first method name
 	}
-	if !sh.embed && len(sh.jNames) == 0 {
+	if !sh.embed && len(sh.jNames) == 0 && !sh.embedErr {
 		return // J would be the empty interface: nothing to analyse
 	}
 	if sh.embed && len(sh.jNames) == 1 && sh.jNames[0] == "M" {
@@ -243,6 +264,21 @@ func Harness_C09() {
 	a := &Affiliation{conf: c09Conf()}
 	upstream := orderedmap.New[Pair, bool]()
 	current := orderedmap.New[Pair, bool]()
+	if ndChoice("dependency_has_same_named_types", 2) == 1 {
+		// a dependency "m/q" declares its own, unrelated I, J and S with the same bare names and converted
+		// S to both interfaces; its Cache fact reaches this package
+		shq := sh
+		shq.pkgPath = "m/q"
+		wq := c09World(shq)
+		aq := &Affiliation{conf: c09Conf()}
+		upq := orderedmap.New[Pair, bool]()
+		aq.computeTriggersForTypes(wq.I, wq.S, orderedmap.New[Pair, bool](), upq)
+		aq.computeTriggersForTypes(wq.J, wq.S, orderedmap.New[Pair, bool](), upq)
+		for _, p := range upq.Pairs {
+			upstream.Store(p.Key, p.Value)
+		}
+		w = c09World(sh) // (the stub side tables are per world: rebuild the local one last)
+	}
 	firstIsI := ndChoice("first_event_is_I", 2) == 1
 	viaUpstream := ndChoice("first_event_seen_upstream", 2) == 1
 	first, second := w.J, w.I
